@@ -6,7 +6,7 @@ from typing import List
 
 from vf.cond import cond
 
-from .common import DictLoader, LiquidError, concrete_int, drive, in_alpha, untraced
+from .common import DictLoader, LiquidError, concrete_int, drive, in_alpha, tier, untraced
 
 from liquid2 import CachingDictLoader  # noqa: E402
 from liquid2.shopify import Environment as ShopifyEnvironment  # noqa: E402
@@ -22,7 +22,7 @@ EXPLANATION = (
 )
 OUTSIDE = [
     "loaders whose async path uses run_in_executor (FileSystemLoader.get_source_async, PackageLoader): they need a running event loop",
-    "more than 2 concurrent renders / more than 6 scheduling decisions; thread-level concurrency",
+    "more than 3 concurrent renders; scheduling decisions after the first 8 of two renders in the quick tier (thorough: all 11) / first 8 of three renders run first-ready; thread-level concurrency",
 ]
 
 PARTS = dict(C11_PARTS)
@@ -146,6 +146,51 @@ def k_loader_names(name: str, caching: bool, ns: bool) -> bool:
     return True
 
 
+# ---- analyze() vs analyze_async(): structure chosen by the solver --------------------------------
+from .C11 import _same as _analysis_same  # noqa: E402
+
+OUTER = ["{% render 'p' %}", "{% render 'p', t: y %}", "{% include 'p' %}", "{% include 'p', t: y %}", "{% render 'p' with y as t %}", "{% extends 'p' %}{% block b %}{{ g }}{{ block.super }}{% endblock %}"]
+INNER = ["", "{% include 'q' %}", "{% render 'q' %}", "{% render 'q', g: t %}", "{% include 'q', g: 1 %}", "{% extends 'q' %}{% block b %}{{ t }}{{ u }}{% endblock %}", "{% for i in t %}{% include 'q' %}{% endfor %}", "{% macro m, g %}{% include 'q' %}{% endmacro %}{% call m, 1 %}"]
+LEAF = ["({{ g }}{{ t }}{{ z }})", "{% block b %}({{ g }}{{ t }}{{ z }}){% endblock %}"]
+PRE = ["", "{% assign g = 1 %}", "{% assign t = 2 %}{% capture z %}{% endcapture %}"]
+
+
+def _analysis_env(o: int, n: int, pre: int):  # type: ignore[no-untyped-def]
+    inner = INNER[n]
+    leaf = LEAF[1] if "extends" in inner or "extends" in OUTER[o] else LEAF[0]
+    p_src = inner + ("" if "extends" in inner else "{% block b %}[{{ t }}{{ w }}]{% endblock %}" if "extends" in OUTER[o] else "[{{ t }}{{ w }}]")
+    env = ShopifyEnvironment(loader=DictLoader({"p": p_src, "q": leaf}))
+    main = (OUTER[o] if "extends" in OUTER[o] else PRE[pre] + OUTER[o] + "{{ g }}{{ t }}")
+    return env, main
+
+
+@cond(
+    pre=["0 <= o < len(OUTER)", "0 <= n < len(INNER)", "0 <= pre < len(PRE)"],
+    timeout=240,
+    covers="analyze() and analyze_async() return the same variables, globals, locals, filters and tags (names and spans) for every two-level partial structure: render / include / extends (with keyword arguments, with-binding, inside for and macro) loading a partial that itself renders / includes / extends another, with and without same-named local assignments in the root",
+    bounds="6 outer x 8 inner constructs x 3 root prefixes (solver-chosen, 144 structures); no data",
+    grid=lambda: [(o, n, pr) for o in range(len(OUTER)) for n in range(len(INNER)) for pr in range(len(PRE))],
+)
+def s_analyze_same(o: int, n: int, pre: int) -> bool:
+    o, n, pre = concrete_int(o, 0, len(OUTER) - 1), concrete_int(n, 0, len(INNER) - 1), concrete_int(pre, 0, len(PRE) - 1)
+
+    def run():  # type: ignore[no-untyped-def]
+        env, main = _analysis_env(o, n, pre)
+        try:
+            t = env.from_string(main)
+        except LiquidError:
+            return True  # not a well-formed structure (e.g. extends after content): nothing to compare
+        a = _outcome(lambda: t.analyze())
+        b = _outcome(lambda: drive(t.analyze_async()))
+        if a[0] != b[0]:
+            return False
+        if a[0] != "ok":
+            return a == b
+        return _analysis_same(a[1], b[1])
+
+    return untraced(run)
+
+
 INCLUDE_WITH = [
     ("snippets/card.html", "card"), ("a/b/c.d.liquid", "c"),
 ]
@@ -195,14 +240,14 @@ for _t in SCHED_T:
         pass
 
 
-def _interleave(coros, schedule: list[bool]):
-    """Run coroutines to completion; at every suspension point the next bit picks who runs."""
-    results: list = [None, None]
-    live = [0, 1]
+def _interleave(coros, schedule: list[int]):
+    """Run coroutines to completion; at every suspension point the next schedule entry picks who runs."""
+    results: list = [None] * len(coros)
+    live = list(range(len(coros)))
     k = 0
     while live:
-        if len(live) == 2:
-            pick = live[1] if (k < len(schedule) and schedule[k]) else live[0]
+        if len(live) > 1:
+            pick = live[(schedule[k] if k < len(schedule) else 0) % len(live)]
             k += 1
         else:
             pick = live[0]
@@ -217,22 +262,47 @@ def _interleave(coros, schedule: list[bool]):
     return results
 
 
+def _interleave_ok(ts: list[int], datas: list[tuple[int, int]], schedule: list[int]) -> bool:
+    wants, coros = [], []
+    for ti, (va, vb) in zip(ts, datas):
+        t = SCHED_T[ti]
+        wants.append(_outcome(lambda t=t, va=va, vb=vb: t.render(d={"a": va, "b": vb}, l=[va, vb, 3]))[:2])
+        coros.append(t.render_async(d=SlowDrop(a=va, b=vb), l=[va, vb, 3]))
+    return _interleave(coros, schedule) == wants
+
+
 @cond(
-    pre=["0 <= v1 <= 3", "0 <= v2 <= 3"],
-    timeout=300,
+    pre=["0 <= v1 <= 1", "0 <= v2 <= 2"],
+    timeout=400,
+    timeout_thorough=1500,
     shard={"p": [0, 1, 2, 3], "q": [0, 1, 2, 3]},
-    covers="two concurrent render_async() of shared Template objects (same or different template) suspended at drop lookups: for every interleaving of the first 6 scheduling decisions each coroutine returns exactly what a sequential render() with its own data returns (counters, cycles, offset: continue, captures, macros, partial renders and extends block stacks are per render)",
-    bounds="4 x 4 template pairs sharing one Environment; 2^6 schedules (solver bits), remaining suspensions run first-ready; data values 0..3",
-    grid=lambda: [(p, q, 1, 2, s, not s, s, s, not s, True) for p in range(4) for q in range(4) for s in (False, True)],
+    covers="two concurrent render_async() of shared Template objects (same or different template) suspended at drop lookups: for every interleaving of the first 8 scheduling decisions (thorough: 11, which is every decision any of the 16 pairs can take, so all interleavings) each coroutine returns exactly what a sequential render() with its own data returns (counters, cycles, offset: continue, captures, macros, partial renders and extends block stacks are per render)",
+    bounds="4 x 4 template pairs sharing one Environment; 2^8 (thorough 2^11 = exhaustive) schedules (solver bits), later suspensions run first-ready; data values 0..1 x 0..2 (equal and distinct values for the two renders)",
+    grid=lambda: [(p, q, 1, 2, s, not s, s, s, not s, True, s, False, True, s, not s) for p in range(4) for q in range(4) for s in (False, True)],
 )
-def s_interleave(p: int, q: int, v1: int, v2: int, s0: bool, s1: bool, s2: bool, s3: bool, s4: bool, s5: bool) -> bool:
-    t1, t2 = SCHED_T[p], SCHED_T[q]
-    want1 = _outcome(lambda: t1.render(d={"a": v1, "b": v2}, l=[v1, v2, 3]))[:2]
-    want2 = _outcome(lambda: t2.render(d={"a": v2, "b": v1}, l=[v2, v1]))[:2]
-    c1 = t1.render_async(d=SlowDrop(a=v1, b=v2), l=[v1, v2, 3])
-    c2 = t2.render_async(d=SlowDrop(a=v2, b=v1), l=[v2, v1])
-    r = _interleave([c1, c2], [s0, s1, s2, s3, s4, s5])
-    return r[0] == want1 and r[1] == want2
+def s_interleave(p: int, q: int, v1: int, v2: int, s0: bool, s1: bool, s2: bool, s3: bool, s4: bool, s5: bool, s6: bool, s7: bool, s8: bool, s9: bool, s10: bool) -> bool:
+    v1, v2 = concrete_int(v1, 0, 1), concrete_int(v2, 0, 2)
+    bits = [s0, s1, s2, s3, s4, s5, s6, s7] + ([s8, s9, s10] if tier() == "thorough" else [])
+    schedule = [1 if b else 0 for b in bits]
+    # every input is concrete from here on: the solver enumerates schedules and data, the real code runs outside the tracer
+    return untraced(lambda: _interleave_ok([p, q], [(v1, v2), (v2, v1)], schedule))
+
+
+TRIPLES = [(0, 1, 2), (1, 2, 3), (0, 0, 0), (3, 3, 3), (2, 2, 1), (0, 3, 1), (1, 1, 3), (2, 0, 2)]
+
+
+@cond(
+    pre=["all(0 <= k <= 2 for k in (k0, k1, k2, k3, k4, k5, k6, k7))", "0 <= v1 <= 1"],
+    timeout=1500,
+    tiers=("thorough",),
+    shard={"tr": list(range(len(TRIPLES)))},
+    covers="three concurrent render_async() of shared Template objects: every choice of the first 8 scheduling decisions among the live coroutines, as s_interleave",
+    bounds="8 template triples; 3^8 schedules; data value 0..1",
+)
+def s_interleave3(tr: int, v1: int, k0: int, k1: int, k2: int, k3: int, k4: int, k5: int, k6: int, k7: int) -> bool:
+    v1 = concrete_int(v1, 0, 1)
+    schedule = [concrete_int(k, 0, 2) for k in (k0, k1, k2, k3, k4, k5, k6, k7)]
+    return untraced(lambda: _interleave_ok(list(TRIPLES[tr]), [(v1, 2), (3, v1), (v1, v1)], schedule))
 
 
 @cond(pre=["0 <= v1 <= 3"], twin=True, timeout=60, covers="reachability twin: coroutines really suspend at drop lookups (more than one scheduling decision is taken)")
